@@ -10,9 +10,12 @@
    witnesses, each next to its partial version:
      - "every other key unchanged": F20, the prefix is tested against the internal key;
      - "no key with a prefix visible": F24, containsPrefix skips a table it must pick;
-     - "crash => pre-drop value or absent" for DropAll: F15, WAL removed before the MANIFEST drop. *)
+     - "crash => pre-drop value or absent" for DropAll: F15, WAL removed before the MANIFEST drop;
+     - "concurrent writes take effect before or after the drop, the database keeps accepting
+       writes": F29, DropPrefix deadlocks with a commit in flight (interleaving model B/DropConc.v). *)
 From Verif Require Import Bytes Keys Consts Spec Lsm Compact Iter Sys Drop.
-From Verif Require LsmProofs CompactProofs GetProofs MergeProofs C12Proofs DropProofs.
+From Verif Require Import DropConc.
+From Verif Require LsmProofs CompactProofs GetProofs MergeProofs C12Proofs DropProofs DropConcProofs.
 Open Scope N_scope.
 Import CompactProofs GetProofs DropProofs.
 
@@ -167,6 +170,28 @@ Theorem C29_crash_coded_outside_window : forall d cut k ts now,
   r = read_at d k ts now \/ r = None.
 Proof. exact DropProofs.crash_coded_outside_window. Qed.
 Print Assumptions C29_crash_coded_outside_window.
+
+(* ---- concurrent committers (interleaving model of blockWrite / prepareToDrop / doWrites /
+   sendToWriteCh / readTs; B/DropConc.v) ---- *)
+
+(* FALSE for DropPrefix (F29): a reachable state in which neither the drop, nor the
+   committer, nor the writer goroutine can move *)
+Theorem C29_concurrent_dropprefix_deadlock_refuted :
+  steps true (init 1) DropConcProofs.f29_state /\ stuck true DropConcProofs.f29_state.
+Proof. exact DropConcProofs.dropprefix_deadlock_refuted. Qed.
+Print Assumptions C29_concurrent_dropprefix_deadlock_refuted.
+
+(* DropAll: every non-final state of the handshake has an enabled step, for any number of
+   committers and any interleaving (all states, not only the reachable ones) *)
+Theorem C29_concurrent_dropall_progress : forall s, final s = false -> exists s', step false s s'.
+Proof. exact DropConcProofs.dropall_progress. Qed.
+Print Assumptions C29_concurrent_dropall_progress.
+
+(* partial for DropPrefix: progress unless a request sits in writeCh while doWrites is stopped *)
+Theorem C29_concurrent_dropprefix_progress_partial : forall s,
+  final s = false -> ~ DropConcProofs.orphan_request s -> exists s', step true s s'.
+Proof. exact DropConcProofs.dropprefix_progress_partial. Qed.
+Print Assumptions C29_concurrent_dropprefix_progress_partial.
 
 (* the hypotheses are satisfiable by non-trivial instances *)
 Example C29_hypotheses_satisfiable :
